@@ -1,6 +1,8 @@
 package core
 
 import (
+	"strconv"
+	"runtime"
 	"bytes"
 	"context"
 	"errors"
@@ -44,6 +46,7 @@ type cNode struct {
 }
 
 type cCluster struct {
+	extraTick time.Duration // added to the real-time wait per clock step when persistence operations are stalled on purpose
 	nodes  []*cNode
 	clock  *clock.FakeClock
 	period time.Duration
@@ -199,7 +202,7 @@ func (c *cCluster) rounds(upTo uint64) bool {
 			return true
 		}
 		c.clock.Advance(time.Second)
-		time.Sleep(40 * time.Millisecond)
+		time.Sleep(40*time.Millisecond + c.extraTick)
 	}
 	return false
 }
@@ -253,16 +256,24 @@ func targetKind(target string) string {
 // point of the node under test its folder is copied (crash image); afterwards every image is restarted and examined.
 func TestVerifC13CrashPoints(t *testing.T) {
 	rec := stats.Open(t, "C13")
+	caseNo := 0
 	rapid.Check(t, func(rt *rapid.T) {
 		seed := rapid.Uint64Range(1, 1<<32).Draw(rt, "keyseed")
 		scheme := rapid.SampledFrom(fx.SchemeNames).Draw(rt, "scheme")
 		nutIdx := rapid.IntRange(0, 2).Draw(rt, "nodeUnderTest") // 0 = leader
 		withReshare := rapid.IntRange(0, 2).Draw(rt, "withReshare") > 0
-		if stats.Shard() == 0 {
+		thr := rapid.IntRange(2, 3).Draw(rt, "t")
+		stallKinds := []string{"none", "dkg.SaveFinished", "key.Save", "dkg.save", "chain.Put", "dkg.SaveFinished"}
+		stallKind := rapid.SampledFrom(stallKinds).Draw(rt, "stall")
+		if caseNo == 0 {
+			stallKind = stallKinds[stats.Shard()%len(stallKinds)] // the first case of shard k uses kind k: every run covers every kind
+		}
+		caseNo++
+		if stats.Shard() <= 1 || stallKind == "dkg.SaveFinished" {
 			withReshare = true // every run covers the resharing windows (so that each listed finding is re-confirmed)
 		}
-		thr := rapid.IntRange(2, 3).Draw(rt, "t")
-		desc := fmt.Sprintf("%s nut=%d(leader=%v) t=%d reshare=%v seed=%d", scheme, nutIdx, nutIdx == 0, thr, withReshare, seed)
+		stallFor := time.Duration(rapid.SampledFrom([]int{60, 250}).Draw(rt, "stallMs")) * time.Millisecond
+		desc := fmt.Sprintf("%s nut=%d(leader=%v) t=%d reshare=%v stall=%s/%v seed=%d", scheme, nutIdx, nutIdx == 0, thr, withReshare, stallKind, stallFor, seed)
 		wd := time.AfterFunc(10*time.Minute, func() {
 			fmt.Fprintf(os.Stderr, "HARNESS-ABORT: C13 case still running after 10 minutes (%s)\n", desc)
 			os.Exit(3)
@@ -273,6 +284,9 @@ func TestVerifC13CrashPoints(t *testing.T) {
 			rt.Fatalf("cluster: %v", err)
 		}
 		nut := c.nodes[nutIdx]
+		if stallKind == "chain.Put" {
+			c.extraTick = 2 * stallFor
+		}
 		imgRoot, _ := os.MkdirTemp(scratchBase(), "c13img")
 		defer os.RemoveAll(imgRoot)
 		var (
@@ -284,9 +298,30 @@ func TestVerifC13CrashPoints(t *testing.T) {
 			lastStep = "start"
 			finCount uint32
 		)
+		// persistence operations are serialised between :begin and :end; an operation that contains others (a store method built
+		// from smaller ones) keeps the lock: ownership is tracked by goroutine id
+		var ownerMu sync.Mutex
+		owner, depth := int64(-1), 0
 		verifhook.Set(func(point, target string) {
 			if strings.HasSuffix(point, ":begin") {
-				hookMu.Lock()
+				me := goid()
+				ownerMu.Lock()
+				nested := owner == me
+				if nested {
+					depth++
+				}
+				ownerMu.Unlock()
+				if !nested {
+					// schedule perturbation: the drawn kind of operation starts late, so that whatever runs concurrently with it
+					// (the beacon side of a DKG completion, the next round) gets ahead
+					if stallKind != "none" && strings.HasPrefix(point, stallKind+":") && strings.HasPrefix(target, nut.dir) {
+						time.Sleep(stallFor)
+					}
+					hookMu.Lock()
+					ownerMu.Lock()
+					owner, depth = me, 1
+					ownerMu.Unlock()
+				}
 			}
 			if strings.HasPrefix(target, nut.dir) {
 				imgMu.Lock()
@@ -307,7 +342,16 @@ func TestVerifC13CrashPoints(t *testing.T) {
 				imgMu.Unlock()
 			}
 			if strings.HasSuffix(point, ":end") {
-				hookMu.Unlock()
+				ownerMu.Lock()
+				depth--
+				release := depth == 0
+				if release {
+					owner = -1
+				}
+				ownerMu.Unlock()
+				if release {
+					hookMu.Unlock()
+				}
 			}
 		})
 		defer verifhook.Set(nil)
@@ -455,6 +499,21 @@ func finCountAt(images []*crashImage, idx int) int {
 
 type imgViolation struct{ kind, detail string }
 
+// goid returns the id of the calling goroutine (parsed from the stack header; used only for lock ownership in the hook handler).
+func goid() int64 {
+	var buf [64]byte
+	n := runtime.Stack(buf[:], false)
+	f := strings.Fields(string(buf[:n]))
+	if len(f) < 2 {
+		return -2
+	}
+	id, err := strconv.ParseInt(f[1], 10, 64)
+	if err != nil {
+		return -2
+	}
+	return id
+}
+
 // examineImage restarts a daemon from the image and applies the C13 oracle.
 func examineImage(img *crashImage, nut *cNode, c *cCluster, sch interface{ String() string }) (out *imgViolation) {
 	work, err := os.MkdirTemp(scratchBase(), "c13work")
@@ -471,7 +530,7 @@ func examineImage(img *crashImage, nut *cNode, c *cCluster, sch interface{ Strin
 		return &imgViolation{"dkg-db-unreadable", fmt.Sprintf("dkg.db cannot be opened: %v", err)}
 	}
 	fin, ferr := store.GetFinished("default")
-	_, cerr := store.GetCurrent("default")
+	cur, cerr := store.GetCurrent("default")
 	_ = store.Close()
 	if ferr != nil || cerr != nil {
 		return &imgViolation{"dkg-db-unreadable", fmt.Sprintf("DKG records cannot be decoded: %v / %v", ferr, cerr)}
@@ -484,6 +543,16 @@ func examineImage(img *crashImage, nut *cNode, c *cCluster, sch interface{ Strin
 		}
 		if !fin.KeyShare.Public().Equal(fin.FinalGroup.PublicKey) {
 			return &imgViolation{"finished-record-not-whole", "group and share of the finished record belong to different keys"}
+		}
+	}
+	// the database records a completion in two places (the current record and the last finished record): they are one record
+	if cerr == nil && cur != nil && cur.State == dkg.Complete {
+		if fin == nil || fin.Epoch != cur.Epoch || fin.FinalGroup == nil || cur.FinalGroup == nil || !bytes.Equal(fin.FinalGroup.Hash(), cur.FinalGroup.Hash()) {
+			fe := uint32(0)
+			if fin != nil {
+				fe = fin.Epoch
+			}
+			return &imgViolation{"dkg-db-completion-torn", fmt.Sprintf("dkg.db: the current record says Complete at epoch %d, the last finished record is epoch %d", cur.Epoch, fe)}
 		}
 	}
 	// (c) key folder
@@ -501,6 +570,8 @@ func examineImage(img *crashImage, nut *cNode, c *cCluster, sch interface{ Strin
 		switch {
 		case !groupThere || !shareThere:
 			return &imgViolation{"key-files-missing-or-torn", fmt.Sprintf("dkg.db records epoch %d as completed but group file: %v, share file: %v", eDB, errS(gerr, groupThere), errS(serr, shareThere))}
+		case !bytes.Equal(g.Hash(), fin.FinalGroup.Hash()) && g.TransitionTime > fin.FinalGroup.TransitionTime:
+			return &imgViolation{"key-files-ahead-of-dkg-db", fmt.Sprintf("dkg.db records epoch %d as the last completed one, the group file already holds a later group (transition %d vs %d)", eDB, g.TransitionTime, fin.FinalGroup.TransitionTime)}
 		case !bytes.Equal(g.Hash(), fin.FinalGroup.Hash()):
 			return &imgViolation{"group-file-of-other-epoch", fmt.Sprintf("dkg.db records epoch %d, the group file holds another group (transition %d vs %d)", eDB, g.TransitionTime, fin.FinalGroup.TransitionTime)}
 		case !sh.Public().Equal(g.PublicKey) || !sh.Share.V.Equal(fin.KeyShare.Share.V):
